@@ -18,7 +18,9 @@ sed -i "s#/repo#$MX/repo#g" $MX/verif/check $MX/verif/setup.sh
 OUT=/verif/seeded/OWN.txt
 : > $OUT
 for d in /verif/seeded/C*-[mf]*; do
-    id=$(basename $d); c=$(jq -r '.detected_by_quick_tier_of[0] // empty' $d/meta.json 2>/dev/null); [ -n "$c" ] || c=${id%%-*}
+    id=$(basename $d); own=${id%%-*}
+    # the check of the seed's own property if it is among those that detect it, else the first one listed
+    c=$(jq -r --arg p "$own" '(.detected_by_quick_tier_of // []) as $l | if ($l | index($p)) != null then $p else ($l[0] // $p) end' $d/meta.json 2>/dev/null); [ -n "$c" ] || c=$own
     (cd $MX/repo && git checkout -q -- . && git apply $d/patch.diff) || { echo "$id APPLY-FAIL" >> $OUT; continue; }
     (cd $MX/verif && nice -n 5 ./check $c quick >/dev/null 2>&1); code=$?
     echo "$id: $c exit=$code" >> $OUT
